@@ -390,21 +390,24 @@ def _short(x):
 
 
 def _long_fasta(path, L, width=60, narrow_first=False, void_record=False):
-    line = (b"ACGTTGCAAC" * (width // 10 + 1))[:width] + b"\n"
+    # not periodic in any chunk size that is used: a random unit of prime length
+    # (identical chunks would let a cache or memo hide what it retains)
+    r = random.Random(L * 31 + width)
+    unit = bytes(r.choice(b"ACGT") for _ in range(9973))
+    seq = (unit * (L // len(unit) + 1))[:L]
     with open(path, "wb") as fh:
         if narrow_first:
             # a first record with one residue per line: anything the indexer
             # calibrates on the first record is wrong for the next one
             fh.write(b">narrow\n" + b"A\nC\nG\nT\n" * 30)
         fh.write(b">chr1 long\n")
-        full, rest = divmod(L, width)
-        blk = line * 1000
-        q, r = divmod(full, 1000)
-        for _ in range(q):
-            fh.write(blk)
-        fh.write(line * r)
-        if rest:
-            fh.write(line[:rest] + b"\n")
+        out = bytearray()
+        for j in range(0, L, width):
+            out += seq[j:j + width] + b"\n"
+            if len(out) > 1 << 20:
+                fh.write(out)
+                out.clear()
+        fh.write(out)
         if void_record:
             fh.write(b">void no residues\n")  # cannot be stored in the .agp cache
         fh.write(b">tail\nACGTNNACGT\n")
@@ -470,6 +473,80 @@ def measure_long(bprime, factor, what, root):
     return peak
 
 
+def large_case(run_seed, tier, which):
+    """Scale outlier for the differential oracle: a record of several hundred
+    kilobases indexed and streamed (forward, reverse, gap) with buffers around
+    the sizes at which helpers switch strategy (64 KiB multiples, the default).
+    Only digests are compared, so nothing large is kept."""
+    import hashlib
+
+    from tola.assembly.assembly import Assembly
+    from tola.assembly.fragment import Fragment
+    from tola.assembly.gap import Gap
+    from tola.assembly.scaffold import Scaffold
+    from tola.fasta import index as index_mod
+    from tola.fasta.stream import FastaStream
+
+    rng = random.Random(run_seed)
+    L = rng.choice([262144, 300000, 393216, 524288 + rng.randint(0, 5000)])
+    root = sandbox.make(ID, tier, run_seed, "G")
+    bufs = sorted({4096, 65536, 65537, 131072, 196608, 250_000, 262144, rng.choice([99_991, 131071, 200_000])}, reverse=True)
+    try:
+        fa = Path(root) / "big.fa"
+        width = rng.choice([60, 80, 100])
+        # not periodic: a random prefix, N runs inside
+        unit = "".join(rng.choice("ACGT") for _ in range(9973))
+        seq = (unit * (L // len(unit) + 1))[:L]
+        cut = rng.randrange(1000, L - 70000)
+        seq = seq[:cut] + "N" * 66000 + seq[cut + 66000:]
+        with open(fa, "w") as fh:
+            fh.write(">big\n")
+            for j in range(0, L, width):
+                fh.write(seq[j:j + width] + "\n")
+            fh.write(">tail\nACGTNNACGT\n")
+        ref = None
+        for b in bufs:
+            idx, asm = index_mod.index_fasta_file(fa, b)
+            fi = index_mod.FastaIndex(fa, b)
+            fi.index = idx
+            sc = Scaffold("s")
+            a, e = 1 + L // 7, L - L // 9
+            sc.add_row(Fragment("big", a, e, -1))
+            sc.add_row(Gap(131072 + 17, "scaffold"))
+            sc.add_row(Fragment("big", 1, L, 1))
+            out_asm = Assembly("a")
+            out_asm.add_scaffold(sc)
+
+            class H:
+                def __init__(self):
+                    self.h = hashlib.blake2b(digest_size=16)
+                    self.n = 0
+
+                def write(self, d):
+                    self.h.update(d)
+                    self.n += len(d)
+
+            h = H()
+            FastaStream(h, fi).write_assembly(out_asm)
+            fh_ = fi.__dict__.get("fasta_fileandle")
+            if fh_ is not None:
+                fh_.close()
+            got = (index_canon(idx), asm_canon(asm), h.n, h.h.hexdigest())
+            if ref is None:
+                ref = (b, got)
+            elif got != ref[1]:
+                what = "index" if got[0] != ref[1][0] else ("derived assembly" if got[1] != ref[1][1] else "streamed bytes")
+                return {
+                    "oracle": "differential_large", "site": what,
+                    "detail": f"{L}-residue record: {what} differ between buffer_size={b} and buffer_size={ref[0]} "
+                              f"(streamed {got[2]} vs {ref[1][2]} bytes)",
+                    "replay": {"property": ID, "kind": "large", "seed": run_seed, "expect": {"oracle": "differential_large"}},
+                }, len(bufs)
+        return None, len(bufs)
+    finally:
+        sandbox.remove(root)
+
+
 LONG_WHATS = ["index", "stream_fwd", "stream_rev", "stream_gap", "index_mixed_width", "autoload_warm"]
 
 
@@ -513,9 +590,16 @@ def run_one(run_seed, i, tier):
             "extra": {"allocator_measurements": [m]},
             "sample": m if i == 0 else None,
         }
+    nlarge = 2 if tier == "quick" else 24
+    if i < nlong + nlarge:
+        v, n = large_case(run_seed, tier, i - nlong)
+        return {
+            "digest": digest_of(["large", v is None]), "evals": n, "events": 0, "classes": ["large"],
+            "violations": [v] if v else [], "probes": {"large_differential_cases": 1}, "faults": {},
+        }
     case = gen_case(rng)
     res = execute_case(case, run_seed, tier)
-    if i in (nlong, nlong + 1):
+    if i in (nlong + nlarge, nlong + nlarge + 1):
         res["sample"] = {
             "fasta": gen.render_fasta(case["fasta"]).decode("ascii", "replace")[:300],
             "assembly": case["scaffolds"], "buffer_sizes": case["bufs"], "knobs": case["knobs"],
@@ -527,11 +611,14 @@ def replay(obj):
     if obj.get("kind") == "long":
         v, m = long_case(obj["bprime"], obj["what"], 0xC13, "quick")
         return {"digest": digest_of(m["what"]), "violations": [v] if v else []}
+    if obj.get("kind") == "large":
+        v, n = large_case(obj["seed"], "quick", 0)
+        return {"digest": digest_of(["large", v is None]), "violations": [v] if v else []}
     return execute_case(obj["case"], 0xC13, "quick", tag="r")
 
 
 def shrink_candidates(obj):
-    if obj.get("kind") == "long":
+    if obj.get("kind") in ("long", "large"):
         return
     case = obj["case"]
     for si, sc in enumerate(case["scaffolds"]):
